@@ -1,11 +1,14 @@
 import StorageModel.Driver.Common
-/- model driver for C07: `run spec` reads case lines on stdin and prints one output line per case
-   (spec = false: the engine model's output; spec = true: the spec's verdict). -/
+import StorageModel.Tx.Wire
+import StorageModel.Generated.CrudReturns
+/- model driver for C07 (and, through Driver/C08, for C08): `run spec` reads case lines on stdin and
+   prints one output line per case (spec = false: the engine model's output under the regenerated
+   return table; spec = true: the spec's verdict). -/
 namespace StorageModel.Driver.C07
 open StorageModel.Driver
 
-def step (_line : String) : String := "not-implemented"
-def specStep (_line : String) : String := "not-implemented"
+def step (line : String) : String := StorageModel.Tx.Wire.modelLine StorageModel.Generated.crudReturns line
+def specStep (line : String) : String := StorageModel.Tx.Wire.specLine line
 
 def run (spec : Bool) : IO Unit := forEachLine (if spec then specStep else step)
 
